@@ -388,6 +388,83 @@ pub fn check_tree(tape: &[u16], rc: &mut RCase) -> Result<(), Failure> {
     Ok(())
 }
 
+/// The resolver is one particular schedule (fees, compiler built-ins, reduce, selection, reduce, compile,
+/// repeated with the fee fed back). Its stages are public, so the same rounds are replayed by hand: when
+/// three hand-made rounds succeed, `resolve_tx` - whose first three rounds are the same computation - may
+/// only fail later and only in selection; when `resolve_tx` succeeds, the first hand-made round does too.
+pub fn check_resolver(tape: &[u16], rc: &mut RCase) -> Result<(), Failure> {
+    use crate::rgen::{self, ROpts};
+    use crate::store::MemStore;
+    use crate::util::block_on;
+    let mut t = Tape::new(tape);
+    let opts = ROpts { allow_refs: false, ..ROpts::default() };
+    let sc = rgen::generate(&mut t, &opts);
+    let src = sc.source();
+    let rendered = || sc.to_json();
+    let tir = match pipeline::front(&src, &sc.tx_name) {
+        Ok(t) => t,
+        Err(e) => return Err(Failure::new("harness:template_rejected", e.describe(), rendered())),
+    };
+    let args = sc.args();
+    let store = MemStore::new(sc.utxos());
+    let cfg = Cfg::default();
+    let Ok(Ok(applied)) = guard(|| tir.clone().apply_args(&args)) else {
+        rc.label("resolver:apply_args_failed");
+        return Ok(());
+    };
+    let mut compiler = pipeline::compiler(&cfg);
+    let mut fee = 0u64;
+    let mut staged: Vec<Result<(), String>> = vec![];
+    for _ in 0..3 {
+        match super::c04::staged_round(&applied, fee, &mut compiler, &store) {
+            Ok(r) => {
+                fee = r.compiled.fee;
+                staged.push(Ok(()));
+            }
+            Err(e) => {
+                staged.push(Err(format!("{}: {}", e.stage(), crate::util::trunc(&e.describe(), 200))));
+                break;
+            }
+        }
+    }
+    let mut c2 = pipeline::compiler(&cfg);
+    let res = guard(|| block_on(tx3_resolver::resolve_tx(tx3_tir::encoding::AnyTir::V1Beta0(tir), &args, &mut c2, &store, 3)));
+    let key = hash64(&format!("{}{:?}", src, sc.store));
+    let with_builtin_in_query = sc.ins.iter().any(|i| i.min.iter().any(|m| matches!(m, rgen::Term::MinUtxo(_))));
+    match res {
+        Err(_) => {
+            rc.label("resolver:panic_counted_for_C14");
+            Ok(())
+        }
+        Ok(Ok(_)) => {
+            if let Some(Err(e)) = staged.first() {
+                return Err(Failure::new(
+                    "resolver_succeeds_where_its_first_round_fails_by_hand",
+                    format!("resolve_tx returned Ok; the first round replayed through the public stages: {}", e),
+                    rendered(),
+                ));
+            }
+            rc.label("resolver:both_ok");
+            rc.record(key, with_builtin_in_query, rendered);
+            Ok(())
+        }
+        Ok(Err(e)) => {
+            let all_ok = staged.len() == 3 && staged.iter().all(|s| s.is_ok());
+            let selection = matches!(e, tx3_resolver::Error::InputNotResolved(..));
+            if all_ok && !selection {
+                return Err(Failure::new(
+                    "resolver_fails_where_its_stages_succeed",
+                    format!("three rounds replayed through the public stages succeed; resolve_tx returned Err({})", crate::util::trunc(&format!("{:?}", e), 300)),
+                    rendered(),
+                ));
+            }
+            rc.label(if all_ok { "resolver:later_round_selection_failure" } else { "resolver:both_fail" });
+            rc.record(key, false, rendered);
+            Ok(())
+        }
+    }
+}
+
 pub fn run(tier: Tier, seed: u64) -> Report {
     let mut r = Report::new("C07", tier, seed);
     r.rule = "templates lowered from generated programs + args + UTxO sets + fee; a schedule = permutation of {args, inputs, \
@@ -395,12 +472,13 @@ pub fn run(tier: Tier, seed: u64) -> Report {
               per template incl. the resolver's and the test helper's orders; thorough adds a phase with all 768. The \
               compiler stage is admissible only when every built-in's operand is closed (independent walk); inadmissible \
               schedules are not judged. Oracle: every admissible schedule ends in the same canonical template or all in an \
-              error; reduce(reduce(t)) == reduce(t) at every point where reduce runs. Phase ir_trees: random IR trees over every node kind (also those lowering never emits): reduce is idempotent and reduce.apply_args.reduce == reduce.apply_args when both succeed. distinct = hash(source); non-trivial = \
+              error; reduce(reduce(t)) == reduce(t) at every point where reduce runs. Phase ir_trees: random IR trees over every node kind (also those lowering never emits): reduce is idempotent and reduce.apply_args.reduce == reduce.apply_args when both succeed. Phase resolver_vs_its_stages: resolve_tx against the same rounds replayed by hand through the public stages (balanced templates with fees and min_utxo inside input thresholds). distinct = hash(source); non-trivial = \
               >=2 admissible stage orders, Ok outcome, and a compiler-evaluated built-in present"
         .into();
     r.assumptions = vec!["canonical form = serialised template with map entries and UtxoSet arrays sorted".into()];
     r.explore("sampled_schedules", tier.pick(8_000, 100_000), 500, &|t, rc| check_case(t, rc, false));
     r.explore("ir_trees", tier.pick(40_000, 1_500_000), 400, &|t, rc| check_tree(t, rc));
+    r.explore("resolver_vs_its_stages", tier.pick(5_000, 150_000), 300, &|t, rc| check_resolver(t, rc));
     if tier == Tier::Thorough {
         r.explore("all_768_schedules", 12_000, 500, &|t, rc| check_case(t, rc, true));
     }
@@ -413,6 +491,8 @@ pub fn replay(phase: &str, tape: &[u16], seed: u64) -> Report {
     let all = phase.starts_with("all");
     if phase == "ir_trees" {
         r.explore_list(phase, &[tape.to_vec()], &|t, rc| check_tree(t, rc));
+    } else if phase == "resolver_vs_its_stages" {
+        r.explore_list(phase, &[tape.to_vec()], &|t, rc| check_resolver(t, rc));
     } else {
         r.explore_list(phase, &[tape.to_vec()], &|t, rc| check_case(t, rc, all));
     }
